@@ -216,6 +216,17 @@ func c12Value(r *Rand, o *Opt) reflect.Value {
 		p.Elem().Set(c12Scalar(r, t.K))
 		v.Set(p)
 	case WSlice, WSlicePtr:
+		if t.K == KString && len(o.Defaults) >= 2 && r.Chance(1, 4) {
+			// one element that reads like the whole default list when rendered
+			e := reflect.ValueOf(strings.Join(o.Defaults, ", "))
+			if t.W == WSlicePtr {
+				p := reflect.New(scalarType(t.K))
+				p.Elem().Set(e)
+				e = p
+			}
+			v.Set(reflect.Append(v, e))
+			return v
+		}
 		n := r.Range(0, 3)
 		if n == 0 && len(o.Defaults) > 0 {
 			n = 1 // an empty slice on an option with defaults is not reachable
@@ -235,6 +246,13 @@ func c12Value(r *Rand, o *Opt) reflect.Value {
 			n = 1
 		}
 		v.Set(reflect.MakeMap(t.GoType()))
+		if t.K == KString && t.MapKey == KString && len(o.Defaults) >= 2 && r.Chance(1, 4) {
+			// one entry that reads like all default entries when rendered
+			if i := strings.IndexByte(o.Defaults[0], ':'); i >= 0 {
+				v.SetMapIndex(reflect.ValueOf(o.Defaults[0][:i]), reflect.ValueOf(o.Defaults[0][i+1:]+", "+strings.Join(o.Defaults[1:], ", ")))
+				return v
+			}
+		}
 		for i := 0; i < n; i++ {
 			var key reflect.Value
 			if t.MapKey == KString {
@@ -252,7 +270,7 @@ func c12Cfg() *DeclCfg {
 	return &DeclCfg{
 		MaxDepth: 3, MaxFan: 2, PCmds: 60, Types: c12Types, OptsMin: 1, OptsMax: 4, SubGroupsMax: 2, NestMax: 2,
 		PNamespace: 30, PShortOnly: 15, PLongOnly: 25, PDefault: 30, PDefault2: 30, PBase: 40, PHidden: 8, PHiddenGrp: 8, PHiddenCmd: 8,
-		PExec: 20, PByTag: 50, PSubOptional: 100, PAliases: 10, PDesc: 50, PIniName: 30, PNoIni: 8, PRequired: 5, PDupField: 25,
+		PCmdTwin: 20, PExec: 20, PByTag: 50, PSubOptional: 100, PAliases: 10, PDesc: 50, PIniName: 30, PNoIni: 8, PRequired: 5, PDupField: 25,
 		ParserOpts: []flags.Options{0, flags.HelpFlag, flags.Default &^ flags.PrintErrors},
 	}
 }
